@@ -99,10 +99,12 @@ theorem CInv.peek_some {σ : Type} {ops : ScoreOps σ} {s : Nat} {cand : List (S
     intro h0
     unfold Counter.peek at h
     rw [h0] at h
-    simp [mostCommon] at h
+    simp at h
   have hsc : max c.scaled cur.scaled = s := by rw [hc.scaled_ok hne]; omega
+  have hexact : ∀ e ∈ c.entries, e.count = (ovl (dn s cur.hs) (dn s e.sig.mh.hs) : Int) := by
+    intro e he; rw [hcur]; exact (hc.exact e he).2.2
   obtain ⟨hc', best, hbest, hsig, hint, hreach, hscore, hz, hq⟩ :=
-    Counter.peek_some hsc hcs hc.entry_wf h
+    Counter.peek_some hsc hcs hc.entry_wf hexact h
   obtain ⟨hbmem, hbmax⟩ := mostCommon_some hbest
   rw [hcur] at hint hreach hscore hq
   subst hsig
@@ -125,7 +127,7 @@ theorem CInv.peek_some {σ : Type} {ops : ScoreOps σ} {s : Nat} {cand : List (S
 overlaps it any more, or the best remaining overlap does not reach the threshold -/
 theorem CInv.peek_none {σ : Type} {ops : ScoreOps σ} {s : Nat} {cand : List (Sig LS)} {Q : List Nat}
     {c c' : Counter LS} {cur : LS} {thr : Nat}
-    (hc : CInv s cand Q c) (hcur : dn s cur.hs = Q) (hle : cur.scaled ≤ s)
+    (hc : CInv s cand Q c) (hcur : dn s cur.hs = Q) (hcs : Sorted cur.hs) (hle : cur.scaled ≤ s)
     (h : c.peek lsOps ops cur thr = .ok (c', none)) :
     CInv s cand Q c' ∧ c'.origQuery = c.origQuery ∧
     (Q = [] ∨ (∀ d ∈ cand, ovl Q (dn s d.mh.hs) = 0) ∨
@@ -135,8 +137,8 @@ theorem CInv.peek_none {σ : Type} {ops : ScoreOps σ} {s : Nat} {cand : List (S
   · have : c' = c := by
       unfold Counter.peek at h
       rw [hne] at h
-      simp only [mostCommon] at h
-      cases h; rfl
+      simp only [List.isEmpty_nil, if_true, Except.ok.injEq, Prod.mk.injEq, and_true] at h
+      exact h.symm
     subst this
     refine ⟨hc, rfl, Or.inr (Or.inl ?_)⟩
     intro d hd
@@ -145,39 +147,14 @@ theorem CInv.peek_none {σ : Type} {ops : ScoreOps σ} {s : Nat} {cand : List (S
     · obtain ⟨e, he, _⟩ := hc.complete d hd h0
       rw [hne] at he; cases he
   · have hsc : max c.scaled cur.scaled = s := by rw [hc.scaled_ok hne]; omega
-    obtain ⟨h1, h2, h3⟩ := Counter.peek_none hsc h
+    have hexact : ∀ e ∈ c.entries, e.count = (ovl (dn s cur.hs) (dn s e.sig.mh.hs) : Int) := by
+      intro e he; rw [hcur]; exact (hc.exact e he).2.2
+    obtain ⟨h1, h2, h2b, h3⟩ := Counter.peek_none hsc hcs hc.entry_wf hexact h
     rw [hcur] at h3
     have hc' : CInv s cand Q c' := by
       refine ⟨by rw [h1]; exact hc.exact, by rw [h1]; exact hc.sound, by rw [h1]; exact hc.complete, ?_⟩
       intro _
-      unfold Counter.peek at h
-      split at h
-      · rename_i hm; exact absurd (mostCommon_eq_none.1 hm) hne
-      · simp only [lsOps_scaled, hsc] at h
-        rw [lsOps_dsF, LS.ds_eq (by omega)] at h
-        simp only [] at h
-        split at h
-        · cases h; rfl
-        · split at h
-          · cases h
-          · split at h
-            · cases h
-            · split at h
-              · cases h; rfl
-              · cases h
-              · split at h
-                · cases h; rfl
-                · split at h
-                  · cases h
-                  · split at h
-                    · cases h
-                    · split at h
-                      · cases h
-                      · split at h
-                        · cases h
-                        · split at h
-                          · cases h
-                          · split at h <;> cases h
+      exact h2b hne
     refine ⟨hc', h2, ?_⟩
     rcases h3 with h3 | h3 | ⟨best, hbest, hnr⟩
     · exact absurd h3 hne
